@@ -9,10 +9,15 @@ strings, so a line terminator inside a quoted string (or after an unterminated q
 when the stream arrives in pieces and not when it arrives whole.  `chunking_counterexample` proves the
 negation on a concrete stream.  A second, benign difference: a chunk boundary between the CR and the LF
 of a CR LF terminator makes the LF an (empty) message of its own (`chunking_crlf_difference`).
+What is proved: streams without quote characters and without CR
+in ANY partition (`…_partial`, `…_noquote_nocr`, `…_bytewise_partial`), and streams without quote
+characters (CR LF and lone CR terminators allowed) in any partition that does not cut directly after a CR
+(`…_cr_partial`).  Definite-length blocks are covered in both.
 -/
 import ScpiVerif.Model.Ctx
 import ScpiVerif.Spec.Chunking
 import ScpiVerif.Lemmas.Chunking
+import ScpiVerif.Lemmas.ParseLocal
 
 namespace ScpiVerif.Props.C08
 open ScpiVerif ScpiVerif.Ctx ScpiVerif.Lexer
@@ -20,57 +25,82 @@ open ScpiVerif ScpiVerif.Ctx ScpiVerif.Lexer
 -- `Observable`, `NoQuotes`, `NoCR`, `Fits` are defined in ScpiVerif/Spec/Chunking.lean (this namespace)
 
 /-
-NOT YET PROVED:
-
-(1) the model lemma `Lemmas.Chunking.ParseLocal` (ScpiVerif/Lemmas/ChunkingDefs.lean): SCPI_Parse of a
-    message that ends in a line feed does not depend on the buffer bytes BEHIND the message.  It is an
-    explicit hypothesis `hloc` of the three `_partial` theorems below; everything else they need is proved.
-    (It is a statement about the model, not about the stream.  Lemmas/Isolation.lean proves the analogous
-    fact when a common NUL follows the message in both buffers; between two chunkings there is no such NUL:
-    `input c (a ++ b)` parses the first message in `pending ++ a ++ b ++ [0] …`, `input (input c a) b` in
-    `pending ++ a ++ [0] …`.)  A colleague proves it as `theorem parseLocal : ParseLocal` in
-    Lemmas/ParseLocal.lean; the hypothesis is then discharged here.
-
-(2) the unrestricted statement, which is FALSE without the hypotheses on quotes and CR
-    (chunking_counterexample, chunking_crlf_difference):
+NOT YET PROVED (FALSE as stated — chunking_counterexample, chunking_crlf_difference): the unrestricted statement
 
 theorem chunking_invariant (c : Ctx) (h : WF c) (cs cs' : List Bytes)
     (hne : (∀ x ∈ cs, x ≠ []) ∧ (∀ x ∈ cs', x ≠ [])) (hs : cs.flatten = cs'.flatten) (hfit : Fits c cs.flatten.length) :
     Observable (cs.foldl input c) = Observable (cs'.foldl input c)
+
+The model lemma the theorems below rest on — SCPI_Parse of a message that ends in LF or CR does not depend on the
+buffer bytes BEHIND the message — is proved: `Lemmas.Chunking.parseLocalCR` / `parseLocal` (Lemmas/ParseLocal*.lean).
 -/
 
 /-- splitting one chunk in two changes nothing observable, for streams (pending bytes included) without
 quote characters and without CR — definite-length blocks, with any bytes other than those three in their
-data, are covered.  `hloc`: open obligation (1) above. -/
-theorem input_split_partial (hloc : Lemmas.Chunking.ParseLocal) (c : Ctx) (h : WF c) (a b : Bytes) (ha : a ≠ []) (hb : b ≠ [])
+data, are covered. -/
+theorem input_split_partial (c : Ctx) (h : WF c) (a b : Bytes) (ha : a ≠ []) (hb : b ≠ [])
     (hfit : Fits c (a.length + b.length)) (hq : NoQuotes (c.buf.take c.position ++ a ++ b))
     (hcr : NoCR (c.buf.take c.position ++ a ++ b)) :
     Observable (input (input c a) b) = Observable (input c (a ++ b)) :=
-  Lemmas.Chunking.input_split_partial hloc c h a b ha hb hfit hq hcr
+  Lemmas.Chunking.input_split_partial Lemmas.Chunking.parseLocal c h a b ha hb hfit hq hcr
 
 /-- hence every partition of such a stream into non-empty chunks behaves like feeding it whole, and
-therefore like feeding it one byte at a time.  `hloc`: open obligation (1) above. -/
-theorem chunking_invariant_partial (hloc : Lemmas.Chunking.ParseLocal) (c : Ctx) (h : WF c) (cs : List Bytes)
+therefore like feeding it one byte at a time. -/
+theorem chunking_invariant_partial (c : Ctx) (h : WF c) (cs : List Bytes)
     (hne : ∀ x ∈ cs, x ≠ []) (hcs : cs ≠ [])
     (hfit : Fits c cs.flatten.length) (hq : NoQuotes (c.buf.take c.position ++ cs.flatten))
     (hcr : NoCR (c.buf.take c.position ++ cs.flatten)) :
     Observable (cs.foldl input c) = Observable (input c cs.flatten) :=
-  Lemmas.Chunking.chunking_invariant_partial hloc c h cs hne hcs hfit hq hcr
+  Lemmas.Chunking.chunking_invariant_partial Lemmas.Chunking.parseLocal c h cs hne hcs hfit hq hcr
 
-/-- the statement (2) itself, with the two hypotheses on the stream added.  `hloc`: open obligation (1) above. -/
-theorem chunking_invariant_noquote_nocr (hloc : Lemmas.Chunking.ParseLocal) (c : Ctx) (h : WF c) (cs cs' : List Bytes)
+/-- the statement (2) itself, with the two hypotheses on the stream added. -/
+theorem chunking_invariant_noquote_nocr (c : Ctx) (h : WF c) (cs cs' : List Bytes)
     (hne : (∀ x ∈ cs, x ≠ []) ∧ (∀ x ∈ cs', x ≠ [])) (hs : cs.flatten = cs'.flatten) (hcs : cs ≠ [])
     (hfit : Fits c cs.flatten.length) (hq : NoQuotes (c.buf.take c.position ++ cs.flatten))
     (hcr : NoCR (c.buf.take c.position ++ cs.flatten)) :
     Observable (cs.foldl input c) = Observable (cs'.foldl input c) :=
-  Lemmas.Chunking.chunking_invariant_clean hloc c h cs cs' hne hs hcs hfit hq hcr
+  Lemmas.Chunking.chunking_invariant_clean Lemmas.Chunking.parseLocal c h cs cs' hne hs hcs hfit hq hcr
 
-/-- the part of the argument that does not depend on (1): when the scan of SCPI_Input finds a complete
+/-- in particular: any partition behaves like feeding the stream one byte at a time (the form in which the
+property is stated). -/
+theorem chunking_bytewise_partial (c : Ctx) (h : WF c) (cs : List Bytes)
+    (hne : ∀ x ∈ cs, x ≠ []) (hcs : cs ≠ [])
+    (hfit : Fits c cs.flatten.length) (hq : NoQuotes (c.buf.take c.position ++ cs.flatten))
+    (hcr : NoCR (c.buf.take c.position ++ cs.flatten)) :
+    Observable (cs.foldl input c) = Observable ((cs.flatten.map fun b => [b]).foldl input c) := by
+  have hf : ∀ s : Bytes, (s.map fun b => [b]).flatten = s := by
+    intro s; induction s with
+    | nil => rfl
+    | cons a t ih => simp [ih]
+  refine chunking_invariant_noquote_nocr c h cs _ ⟨hne, ?_⟩ (hf _).symm hcs hfit hq hcr
+  intro x hx
+  obtain ⟨b, _, rfl⟩ := List.mem_map.1 hx
+  simp
+
+/-- when the scan of SCPI_Input finds a complete
 message in the pending bytes `s`, it finds the same message when more bytes `y` follow — the decision was
-taken by bytes that are present in `s` -/
-theorem scan_prefix_stable (s y : Bytes) (k : Nat) (hq : NoQuotes (s ++ y)) (hcr : NoCR (s ++ y))
+taken by bytes that are present in `s` — unless `s` ends in a CR, which a following LF would extend
+(no hypothesis on CR otherwise) -/
+theorem scan_prefix_stable (s y : Bytes) (k : Nat) (hq : NoQuotes (s ++ y)) (hcut : s.getLast? ≠ some 13)
     (h : Lemmas.Chunking.scan s = some k) : Lemmas.Chunking.scan (s ++ y) = some k :=
-  Lemmas.Chunking.good_clean.stable s y k ⟨hq, hcr⟩ h
+  Lemmas.Chunking.scan_stable s y k hq hcut h
+
+/-- CR allowed: splitting one chunk in two changes nothing observable when the stream has no quote
+characters and the cut is not directly after a CR. -/
+theorem input_split_cr_partial (c : Ctx) (h : WF c) (a b : Bytes) (ha : a ≠ []) (hb : b ≠ [])
+    (hfit : Fits c (a.length + b.length)) (hq : NoQuotes (c.buf.take c.position ++ a ++ b))
+    (hcut : a.getLast? ≠ some 13) :
+    Observable (input (input c a) b) = Observable (input c (a ++ b)) :=
+  Lemmas.Chunking.input_split_cr Lemmas.Chunking.parseLocalCR c h a b ha hb hfit hq hcut
+
+/-- CR allowed: two partitions of a stream without quote characters, neither of which cuts directly after
+a CR, behave alike (and like feeding the stream whole: `Lemmas.Chunking.chunking_invariant_cr`). -/
+theorem chunking_invariant_cr_partial (c : Ctx) (h : WF c) (cs cs' : List Bytes)
+    (hne : (∀ x ∈ cs, x ≠ []) ∧ (∀ x ∈ cs', x ≠ [])) (hs : cs.flatten = cs'.flatten) (hcs : cs ≠ [])
+    (hfit : Fits c cs.flatten.length) (hq : NoQuotes (c.buf.take c.position ++ cs.flatten))
+    (hcut : (∀ x ∈ cs, x.getLast? ≠ some 13) ∧ (∀ x ∈ cs', x.getLast? ≠ some 13)) :
+    Observable (cs.foldl input c) = Observable (cs'.foldl input c) :=
+  Lemmas.Chunking.chunking_invariant_cr2 Lemmas.Chunking.parseLocalCR c h cs cs' hne hs hcs hfit hq hcut
 
 /-- a zero-length call executes whatever is buffered as one complete message and empties the buffer -/
 theorem flush_executes_pending (c : Ctx) (h : WF c) :
